@@ -34,14 +34,17 @@ def fldOf (s : String) : Option (Fld × Char) :=
     | [b, "owner"] => (blk 'Z' b).map (fun r => (.rowner r, 'G'))
     | _ => none
 
-def opOf (s : String) : Option Op :=
+/-- script op without its fault suffix (`!`, `!n`, `!z`) -/
+def bare (s : String) : String := (s.splitOn "!").headD s
+
+def opOf (s0 : String) : Option Op :=
+  let s := bare s0
   match s with
   | "lr" => some (.lock false) | "lw" => some (.lock true) | "rel" => some .rel | "beg" => some .beg
   | "nxt" => some .nxt | "der" => some .der | "erc" => some (.erase true) | "ers" => some (.erase false) | "dtor" => some .dtor
   | _ =>
     match s.splitOn "=" with
     | [k, a] =>
-        let a := if a.endsWith "!" then (a.dropEnd 1).toString else a
         match k, a.toInt? with
         | "pf", some v => some (.push true false v)
         | "pb", some v => some (.push false false v)
@@ -64,15 +67,17 @@ inductive DEv
   | macE (name : String) (vals : List Int)
 
 def macOf (op : String) : String × Int :=
-  match op.splitOn "=" with
+  match (bare op).splitOn "=" with
   | [k, a] => (k, a.toInt?.getD 0)
-  | _ => (op, 0)
+  | _ => (bare op, 0)
 
 def parseM (_a : Unit) (t : Tid) (ts : List String) : Unit × Option (Option Ev) :=
   ((), match ts with
   | ["call", k] => (opOf k).map (fun k => some (.call k))
-  | "ret" :: k :: _ => (opOf (if k = "ers" then "erc" else k)).map (fun k => some (.ret k))
-  | ["exc", k] => (opOf k).map (fun k => some (.exc k))
+  | "ret" :: k :: _ => (opOf (if bare k = "ers" then "erc" else k)).map (fun k => some (.ret k))
+  | ["exc", k] => (opOf (if bare k = "ers" then "erc" else k)).map (fun k => some (.exc k))
+  | ["afl", "Z"] => some (some (.afl true))
+  | ["afl", "N"] => some (some (.afl false))
   | "pct" :: _ => some none
   | "pdt" :: _ => some none
   | "uth" :: _ => some none
@@ -150,7 +155,8 @@ def pcName : Pc → String
   | .regAlloc .. => "regAlloc" | .regCons .. => "regCons" | .pushStore .. => "pushStore" | .pushCas .. => "pushCas"
   | .uOwner .. => "uOwner" | .uNext .. => "uNext" | .rZn .. => "rZn" | .rDesN .. => "rDesN" | .rFreN .. => "rFreN"
   | .rNext .. => "rNext" | .rDesZ .. => "rDesZ" | .rFreZ .. => "rFreZ" | .uTrunc _ => "uTrunc" | .uClear _ => "uClear"
-  | .pAlloc _ => "pAlloc" | .pCons .. => "pCons" | .pThrown _ => "pThrown" | .pExc _ => "pExc" | .pLoad .. => "pLoad"
+  | .pAlloc _ => "pAlloc" | .pCons .. => "pCons" | .pThrown (.erase _) => "pThrown-erase" | .pThrown _ => "pThrown-push"
+  | .pExc (.erase _) => "pExc-erase" | .pExc _ => "pExc-push" | .rExc _ => "rExc" | .pLoad .. => "pLoad"
   | .pE1 .. => "pE1" | .pE2 .. => "pE2" | .pF1 .. => "pF1" | .pF2 .. => "pF2" | .pF3 .. => "pF3"
   | .pB1 .. => "pB1" | .pB2 .. => "pB2" | .pB3 .. => "pB3" | .pUnlock _ => "pUnlock"
   | .eOrig .. => "eOrig" | .eDel .. => "eDel" | .eMark .. => "eMark" | .eBack .. => "eBack" | .eNext .. => "eNext"
@@ -173,6 +179,9 @@ def edge (s : St) (t : Tid) (e : Ev) : String :=
   | .idle, .call k => "idle/call-" ++ opName k
   | .called k, .ret _ => "called-" ++ opName k ++ "/ret"
   | .called k, .alo .. => "called-" ++ opName k ++ "/register"
+  | .called k, .afl _ => "called-" ++ opName k ++ "/regfail"
+  | .pAlloc _, .afl _ => "pAlloc/fail"
+  | .eAlloc .., .afl _ => "eAlloc/fail"
   | .called .rel, .ald _ _ v => "called-rel/ald-" ++ sn v
   | .called .dtor, .ald _ _ v => "called-dtor/ald-" ++ sn v
   | .called k, _ => "called-" ++ opName k
@@ -193,8 +202,8 @@ def edge (s : St) (t : Tid) (e : Ev) : String :=
   | .pCons .., .fre .. => "pCons/throw"
   | .pLoad (.push f _ _) _, .ald _ _ v => "pLoad/" ++ (if f then "front-" else "back-") ++ sn v
   | .eDel .., .pldDel _ d => "eDel/" ++ (if d then "deleted" else "fresh")
-  | .eUnl _ _ p _, _ => "eUnl/" ++ (if p.isSome then "prev" else "head")
-  | .eFix _ _ _ x, _ => "eFix/" ++ (if x.isSome then "next" else "tail")
+  | .eUnl _ _ p _ _, _ => "eUnl/" ++ (if p.isSome then "prev" else "head")
+  | .eFix _ _ _ x _, _ => "eFix/" ++ (if x.isSome then "next" else "tail")
   | .eCons .., .pstZn .. => "eCons/pst"
   | .eCons .., _ => "eCons/con"
   | .dFreN _ nx, _ => "dFreN/" ++ sn nx
@@ -216,7 +225,8 @@ def edges : List String :=
    "pushCas-reg/ok", "pushCas-reg/fail", "pushCas-reg/spurious", "pushCas-erase/ok", "pushCas-erase/fail", "pushCas-erase/spurious",
    "uOwner/active", "uOwner/inactive", "uNext/some", "uNext/none", "rZn/null", "rZn/node", "rDesN", "rFreN", "rNext",
    "rDesZ", "rFreZ/some", "rFreZ/none", "uTrunc", "uClear",
-   "pAlloc", "pCons/pstDel", "pCons/pstData", "pCons/con", "pCons/throw", "pThrown", "pExc",
+   "pAlloc", "pCons/pstDel", "pCons/pstData", "pCons/con", "pCons/throw", "pThrown-push", "pThrown-erase", "pExc-push", "pExc-erase", "rExc",
+   "called-beg/regfail", "called-pf/regfail", "called-pb/regfail", "called-ef/regfail", "called-eb/regfail", "pAlloc/fail", "eAlloc/fail",
    "pLoad/front-none", "pLoad/front-some", "pLoad/back-none", "pLoad/back-some",
    "pE1", "pE2", "pF1", "pF2", "pF3", "pB1", "pB2", "pB3", "pUnlock",
    "eOrig", "eDel/deleted", "eDel/fresh", "eMark", "eBack", "eNext", "eUnl/prev", "eUnl/head", "eFix/next", "eFix/tail",
